@@ -31,3 +31,28 @@ def collect_beta(o, pid, tier):
         o.finding(kind='rejection', fam=ev.get('fam'), ft=ev.get('ft'), params=ev.get('params'), res=str(ev.get('res'))[:80], show=ev.get('show'),
                   event={k: v for k, v in ev.items() if k not in ('probes',)}, signature='rejection:%s:%s' % (ev.get('fam'), ev.get('params')))
     o.samples.append({'kind': 'exact cumulative law of Beta<f32> at the anchors (2^48 tickets)', 'event': {k: v for k, v in json.loads(lines[0]).items() if k != 'probes'}})
+
+
+def collect_mt(o, pid, tier):
+    """Marsaglia-Tsang kernel (Gamma with shape >= 1; behind shape < 1, ChiSquared, StudentT, FisherF and Dirichlet's gamma path), pointwise:
+    at the anchors of spec/MtTable.tla the value returned for a normal deviate x is d (1 + c x)^3 and the accepting uniform words are a
+    prefix of relative length min(1, exp(x^2/2 + d (1 - v + ln v))), the ratio of the gamma density to the normal hat (f64 and f32)."""
+    wd = workdir(pid, 'traces')
+    tr = wd / 'mt.ndjson'
+    r = tlc('MCMt', 'MCMt.cfg', pid, 'mt_cases', workers=1, timeout=1200, heap='2g', pipe_to=[str(RDV), 'btpe-drive', '--out', str(tr)])
+    require_ok(r, 'MCMt')
+    s = json.loads(r.consumer_out.strip().splitlines()[-1])
+    if s['events'] < 80:
+        raise ToolError('btpe-drive (MT): too few events: %s' % s)
+    rr = tlc('TraceBtpe', 'TraceBtpe.cfg', pid, 'mt_trace', trace_mode=True, env={'TRACE': tr}, timeout=1200, heap='4g')
+    require_ok(rr, 'TraceBtpe (MT)')
+    if rr.rejected or rr.violated:
+        raise ToolError('mt trace not consumed: %s' % (rr.rejected or rr.violated))
+    o.add_tlc(rr, 'TraceBtpe: %d measured Marsaglia-Tsang acceptance prefixes at the anchors of MtTable (f64 and f32)' % s['events'])
+    lines = tr.read_text().splitlines()
+    o.traces += len(lines)
+    o.extra['mt_drive'] = s
+    for (ln, ev) in parse_bad(rr.out):
+        o.finding(kind='mt', case=ev.get('case'), ft=ev.get('ft'), j=ev.get('j'), res=str(ev.get('res'))[:80], show=ev.get('show'), event=ev,
+                  signature='mt:%s:%s:%s' % (ev.get('case'), ev.get('ft'), ev.get('j')))
+    o.samples.append({'kind': 'Marsaglia-Tsang: measured acceptance prefix', 'event': json.loads(lines[0])})
